@@ -13,7 +13,7 @@
    repaired: detached heap-push goroutines overtaken by shutdown ("fix: heap pushes
    never overtaken...") and bars stranded in width sync after a render error ("fix: a
    render error no longer strands bars..."). *)
-From MPB Require Import Base BaseProofs BarState Container ContainerProofs ContainerLife ContainerProgress ContainerMatrix Sync SyncProofs GenChecks.
+From MPB Require Import Base BaseProofs BarState Container ContainerProofs ContainerLife ContainerProgress ContainerMeasure ContainerMatrix Sync SyncProofs GenChecks.
 From MPB.gen Require Import GenApi.
 From Coq Require Import String.
 Open Scope string_scope.
@@ -25,6 +25,16 @@ Theorem C01_cycle_never_wedged : forall p a d evs s,
   exists e, client_event e = false /\ enabled s e.
 Proof. exact cycle_progress. Qed.
 Print Assumptions C01_cycle_never_wedged.
+
+(* ... and a cycle ends: each step of the heap manager, of flush, of a bar's render or exit strictly decreases the
+   measure [mu] (5 per queued request, 4 per bar in the heap, 3 per bar popped, 2 per bar not yet rendered, 1 per
+   pending closure / live actor); nothing else inside the cycle increases it unless the client adds work.  With
+   [C01_cycle_never_wedged] a fairly scheduled cycle therefore reaches its frame (or its error) *)
+Theorem C01_cycle_is_bounded : forall evs s s',
+  rendering s = true -> forallb (fun e => negb (adds_work e)) evs = true -> run_in_cycle s evs = Some s' ->
+  (List.length (filter cycle_step evs) + mu s' <= mu s)%nat.
+Proof. exact cycle_bounded. Qed.
+Print Assumptions C01_cycle_is_bounded.
 
 (* the bookkeeping behind it holds in every reachable state: requests are taken in order, pops happen only
    with an empty request queue, nothing is sent once the heap manager was told to end *)
